@@ -2,6 +2,7 @@
 
 Engine E2 (engine/pysym.py): the REAL methods of jumanji.specs run on symbolic bounds and values; every Python branch on a
 symbolic array forks; each explored path is compared with the characterisation the property states."""
+from typing import Any
 import collections
 import itertools
 import pickle
@@ -371,6 +372,57 @@ def run_structures(R):
                 outcome.append("raised " + type(e).__name__)
         R.structural(f"nested specs that differ in structure ({label}) never compare equal, in either order", True not in outcome,
                      {"case": label, "s1 == s2": outcome[0], "s2 == s1": outcome[1]})
+        R.validated += 2
+    # value containers: validate is documented for "a named tuple or a dataclass", nested to any depth.  Every combination of plain
+    # dataclass / chex dataclass / namedtuple at two nesting levels: validate(generate_value()) returns an equal structure, and a value
+    # with one inner leaf out of bounds is rejected
+    import dataclasses
+    import chex
+    import jax.numpy as jnp
+
+    @dataclasses.dataclass
+    class DIn:
+        x: Any
+        y: Any
+
+    @dataclasses.dataclass
+    class DOut:
+        inner: Any
+        z: Any
+
+    @chex.dataclass
+    class CIn:
+        x: Any
+        y: Any
+
+    @chex.dataclass
+    class COut:
+        inner: Any
+        z: Any
+    NIn = collections.namedtuple("NIn", ["x", "y"])
+    NOut = collections.namedtuple("NOut", ["inner", "z"])
+    for (iname, In), (oname, Out) in itertools.product((("dataclass", DIn), ("chex.dataclass", CIn), ("namedtuple", NIn)), (("dataclass", DOut), ("chex.dataclass", COut), ("namedtuple", NOut))):
+        inner = specs.Spec(In, "inner", x=specs.BoundedArray((), np.int32, -2, 4, "x"), y=specs.BoundedArray((2,), np.float32, 0.0, 1.0, "y"))
+        outer = specs.Spec(Out, "outer", inner=inner, z=specs.DiscreteArray(3, name="z"))
+        label = f"{oname} holding a {iname}"
+        try:
+            v = outer.generate_value()
+            r = outer.validate(v)
+            ok = type(r) is type(v) and type(r.inner) is type(v.inner) and bool(jnp.array_equal(r.inner.x, v.inner.x)) and bool(jnp.array_equal(r.inner.y, v.inner.y))
+            det = {"containers": label}
+        except Exception as e:  # noqa
+            ok, det = False, {"containers": label, "raised": f"{type(e).__name__}: {str(e)[:160]}"}
+        R.structural(f"nested validate(generate_value()) returns the value ({label})", ok, det)
+        try:
+            bad_v = Out(inner=In(x=jnp.asarray(5, jnp.int32), y=jnp.zeros((2,), jnp.float32)), z=jnp.asarray(0, jnp.int32))
+            try:
+                outer.validate(bad_v)
+                rejected = False
+            except ValueError:
+                rejected = True
+            R.structural(f"nested validate rejects an inner leaf out of bounds ({label})", rejected, {"containers": label})
+        except Exception as e:  # noqa
+            R.structural(f"nested validate rejects an inner leaf out of bounds ({label})", False, {"containers": label, "raised": f"{type(e).__name__}: {str(e)[:160]}"})
         R.validated += 2
     same = [bool(base() == base()), bool(specs.Spec(A3, "S", a=a(), b=b(), c=c()) == specs.Spec(A3, "S", a=a(), b=b(), c=c()))]
     R.structural("control: structurally identical nested specs with equal children compare equal", all(same), {"results": same})
